@@ -1108,6 +1108,10 @@ def check(run):
         run.dist("identity:histories:enumerated" if seq.get("enum") else "identity:histories")
         run.dist("identity:deletions", ndeleted)
         compare_identity(run, seq, ref, f1[-1], f2[-1], o1, o2, tabs, f1_hit, f2_hit)
+    if os.environ.get("C13_XSESSION"):
+        # exploratory, off by default: its first differences are not triaged yet (stale values of sleeping variables that a fresh
+        # session has never computed; one LOAD err=input) -- see NOTES.md, residue
+        cross_session_stream(run, unit, 8 if quick else 150)
     if not quick:
         asan_stream(run, 300)
     run.cov["correspondence"].update({"histories": len(seqs), "primitive_cases": nprim, "module_event_cases": ndel, "identity_histories": len(id_items), "enumerated_histories": len(enum_seqs)})
@@ -1143,6 +1147,61 @@ def asan_stream(run, n):
         elif "echo END" not in o:
             run.violation("asan:crash", "the engine simulator (sanitizer build) died (rc=%d) during a define/delete history: %s" % (rc, e[-300:]),
                           {"kind": "scenario", "scenario": sc, "variant": "asan"})
+
+
+def cross_session_stream(run, unit, n):
+    """a state written after a define/delete history (unnamed biases included) is loaded into a FRESH session that defines the
+    surviving objects in another order (the default names of the first session given explicitly): the next step must give what
+    the first session gives when it simply continues.  Everything in the state file is found by name."""
+    r = V.rng("C13-xsession")
+    d = V.scratch("C13x")
+    for k in range(n):
+        seq = gen_sequence(r, k, r.randint(6, 30), with_set=False)
+        seq["samestep"] = 1
+        ref, lcv, lb = survivors_only(seq)
+        adds_cv = [e for e in ref["events"] if e["op"] == "addcv"]
+        adds_b = [e for e in ref["events"] if e["op"] == "addbias"]
+        if not adds_cv or not adds_b:
+            continue
+        fmt = r.choice(["text", "binary"])
+        pos = [(a, V.dyadic(r, -3, 3, 4), V.dyadic(r, -3, 3, 4), V.dyadic(r, -3, 3, 4)) for a in range(1, NATOMS + 1)]
+        step = event_lines({"op": "step", "pos": pos})
+        s1 = scenario(seq, dumps=False, tail=["save %s x.colvars.state" % fmt] + step)
+        rc1, o1, e1 = run_scn(unit, d, s1, "x1.scn")
+        dumps = D.parse_deps_blocks(o1.split("\n"))
+        if "echo END" not in o1 or "err=input" in o1 or "err=error" in o1 or not dumps or "SAVE err=ok" not in o1:
+            run.dist("xsession:skipped")
+            continue
+        if any(o["cls"] == 1 and o["fs"] and not o["fs"][0][1] for o in dumps[-1]["objs"]):
+            run.dist("xsession:skipped-inactive-variable")      # finding F2: a variable switched off by a deletion
+            continue
+        r.shuffle(adds_cv); r.shuffle(adds_b)
+        L = start_lines(seq)
+        for e in adds_cv:
+            L += event_lines(e)
+        for e in adds_b:
+            conf = e["bias"]["conf"]
+            if e["bias"].get("unnamed"):
+                head, _, rest = conf.partition("\n")
+                conf = head + "\n  name " + e["bias"]["name"] + "\n" + rest
+            L += ["config EOF"] + conf.rstrip("\n").split("\n") + ["EOF"]
+        L += ["load x"] + step + ["echo END"]
+        s2 = "\n".join(L) + "\n"
+        rc2, o2, e2 = run_scn(unit, d, s2, "x2.scn")
+        run.count("xsession:%d" % k, True)
+        run.dist("xsession:" + fmt)
+        if "echo END" not in o2 or "LOAD err=ok" not in o2:
+            run.violation("xsession:load", "a state written after a define/delete history is not read by a fresh session that defines the same objects "
+                          "in another order: %s" % " ".join(l for l in o2.split("\n") if l.startswith("LOAD"))[:200], {"kind": "identity", "scenario": s1, "reference": s2})
+            continue
+        def block(text):
+            idx = text.rfind("\nSTEP ")
+            return sorted(l for l in text[idx + 1:].split("\n") if l.split() and l.split()[0] in ("STEP", "ENERGY", "CV", "BIAS", "ATOMF"))
+        A, B = block(o1), block(o2)
+        if not obs_equal(A, B):
+            run.violation("xsession:observables", "the step after loading the state in a fresh session that defines the objects in another order differs from "
+                          "the continued run: %s instead of %s" % ([l for l in B if l not in A][:4], [l for l in A if l not in B][:4]),
+                          {"kind": "identity", "scenario": s1, "reference": s2})
 
 
 def table_oracles(run, tabs, label):
